@@ -66,6 +66,142 @@ def accepts_norx(desc, values):
   return [_apply(spec, tv.to_py(v), False)[0][0] == 'ok' for v in values]
 
 
+def state_to_desc(st, unfreeze=False):
+  """A description that rebuilds a spec from its observed state."""
+  F = st[-1]
+  k = st[0]
+  d = {'k': k, 'n': 1 if F[0] else 0}
+  if F[1] != ['M']:
+    d['d'] = F[1]
+  if F[2] and not unfreeze:
+    d['fz'] = True
+  if k == 'int':
+    d['lo'], d['hi'] = st[1], st[2]
+  elif k == 'float':
+    d['lo'], d['hi'] = st[1], st[2]
+  elif k == 'str':
+    d['rx'] = st[1]
+  elif k == 'enum':
+    d['vals'] = st[1]
+    d['n'] = 0
+  elif k == 'any':
+    d['n'] = 0
+  elif k == 'list':
+    d['elem'], d['mn'], d['mx'] = state_to_desc(st[1], unfreeze), st[2], st[3]
+  elif k == 'tuple':
+    if st[3] == st[2]:
+      d['elems'] = [state_to_desc(e, unfreeze) for e in st[1]]
+    else:
+      d['elem'], d['mn'], d['mx'] = state_to_desc(st[1][0], unfreeze), st[2], st[3]
+  elif k == 'dict':
+    d['fields'] = None if st[1] is None else [[key, state_to_desc(f, unfreeze)] for key, f in st[1]]
+    if st[1] is not None:
+      d.pop('d', None)
+  elif k == 'obj':
+    d['cls'] = st[1]
+  elif k == 'union':
+    d['cands'] = [state_to_desc(c, unfreeze) for c in st[1]]
+  return d
+
+
+def default_invalid(st):
+  """Does some (nested) default of this spec state fail the spec's own constraints?  Decided by the
+  real constructors: rebuilding the spec, unfrozen, from its state re-applies every default."""
+  try:
+    tv.build(strip_rx(state_to_desc(st, unfreeze=True)))
+    return False
+  except (TypeError, ValueError, KeyError):
+    return True
+
+
+def fake_fixed_tuple(st):
+  """A tuple spec whose min_size == max_size although it has a single (variable-length) element spec."""
+  k = st[0]
+  if k == 'tuple':
+    if st[3] == st[2] and len(st[1]) != st[2]:
+      return True
+    return any(fake_fixed_tuple(e) for e in st[1])
+  if k == 'list':
+    return fake_fixed_tuple(st[1])
+  if k == 'union':
+    return any(fake_fixed_tuple(c) for c in st[1])
+  if k == 'dict' and st[1] is not None:
+    return any(fake_fixed_tuple(f) for _, f in st[1])
+  return False
+
+
+def aligned(cst, bst):
+  """Pairs (child sub-state, base sub-state) at corresponding positions."""
+  yield cst, bst
+  if cst[0] != bst[0]:
+    if bst[0] == 'union':
+      for b in bst[1]:
+        if b[0] == cst[0]:
+          yield from aligned(cst, b)
+    return
+  k = cst[0]
+  if k == 'list':
+    yield from aligned(cst[1], bst[1])
+  elif k == 'tuple':
+    for i, c in enumerate(cst[1]):
+      if bst[1]:
+        yield from aligned(c, bst[1][i] if len(bst[1]) == len(cst[1]) else bst[1][0])
+  elif k == 'dict' and cst[1] is not None and bst[1] is not None:
+    for key, f in cst[1]:
+      for bkey, g in bst[1]:
+        if key == bkey:
+          yield from aligned(f, g)
+  elif k == 'union':
+    for c in cst[1]:
+      for b in bst[1]:
+        if b[0] == c[0] or c[0] == 'enum':
+          yield from aligned(c, b)
+
+
+def dict_default_gap(rst, ost):
+  """Receiver and other have a dict field of the same key where only the other's has a default."""
+  for r, o in aligned(rst, ost):
+    if r[0] == 'dict' and o[0] == 'dict' and r[1] is not None and o[1] is not None:
+      for key, f in r[1]:
+        for okey, g in o[1]:
+          if key == okey and key[0] == 'c' and f[-1][1] == ['M'] and not f[-1][2] and (g[-1][1] != ['M'] or g[-1][2]):
+            return True
+  return False
+
+
+def union_int_and_float(st):
+  """A union (at any depth) with both a candidate that takes ints as they are and a float candidate."""
+  k = st[0]
+  if k == 'union':
+    kinds = [c[0] for c in st[1]]
+    takes_int = any(c[0] in ('int', 'bool', 'any') or (c[0] == 'enum') for c in st[1])
+    if takes_int and ('float' in kinds or any(c[0] == 'enum' for c in st[1])):
+      return True
+    return any(union_int_and_float(c) for c in st[1])
+  if k == 'list':
+    return union_int_and_float(st[1])
+  if k == 'tuple':
+    return any(union_int_and_float(e) for e in st[1])
+  if k == 'dict' and st[1] is not None:
+    return any(union_int_and_float(f) for _, f in st[1])
+  return False
+
+
+def frozen_foreign_default(st):
+  """A frozen Int spec (at any depth) whose frozen value is a bool (`Int().freeze(True)`)."""
+  F = st[-1]
+  k = st[0]
+  if F[2] and k == 'int' and F[1][0] == 'b':
+    return True
+  if k == 'list':
+    return frozen_foreign_default(st[1])
+  if k in ('tuple', 'union'):
+    return any(frozen_foreign_default(c) for c in st[1])
+  if k == 'dict' and st[1] is not None:
+    return any(frozen_foreign_default(f) for _, f in st[1])
+  return False
+
+
 def default0(desc):
   """The value `set_default` is called with by the constructor (None: not comparable)."""
   if desc.get('n') == 2 and desc['k'] == 'dict':
@@ -405,7 +541,10 @@ class C04(Prop):
     for name, st, tab in tables:
       for v, (r0, again, _) in zip(values, tab):
         if r0[0] == 'ok' and again != r0:
-          return fail('not-idempotent:' + st[0],
+          kind = st[0]
+          if kind == 'union' and frozen_foreign_default(st):
+            kind = 'union-candidate-frozen-at-value-of-other-type'
+          return fail('not-idempotent:' + kind,
                       'spec %s %s: apply(%s) = %s but applying the result again gives %s' % (
                           name, json.dumps(st), json.dumps(v), json.dumps(r0[1]), json.dumps(again)))
     # a spec's own default is acceptable to it
@@ -448,8 +587,8 @@ class C04(Prop):
         return fail('extend-base-not-compatible:' + self.classify_bc(sc, sb),
                     'a.extend(b) = %s succeeded but b.is_compatible(it) is False (b=%s)' % (json.dumps(sc), json.dumps(sb)))
       sd = out.get('selfdefault_c')
-      if sd != ['ok', sc[-1][1]]:
-        return fail('default-unacceptable-after-extend:' + sc[0],
+      if sd != ['ok', sc[-1][1]] and default_invalid(sc):
+        return fail('default-unacceptable-after-extend',
                     'default %s of the extended spec %s: apply gives %s' % (json.dumps(sc[-1][1]), json.dumps(sc), json.dumps(sd)))
     return None
 
@@ -464,18 +603,32 @@ class C04(Prop):
     ra, oa = spec_atoms(rst, False, []), spec_atoms(ost, False, [])
     if any(cross_type_equal(x, y) for x in ra for y in oa):
       return 'enum-values-equal-across-types'
+    if _any_frozen(rst):
+      return 'frozen-receiver-ignored'
+    if any(r[0] == 'list' and o[0] == 'list' and r[2] > o[2] for r, o in aligned(rst, ost)):
+      return 'list-min-size-ignored'
+    if dict_default_gap(rst, ost):
+      return 'dict-field-default-ignored'
+    if union_int_and_float(rst) and any(x[0] in ('i', 'b') for x in vat):
+      return 'union-dispatches-by-type'
     return '%s<-%s' % (rst[0], ost[0])
 
   def classify_ext(self, sc, sb, adesc, v):
     vat = atoms_of(v, [])
-    if has_missing(v) and _any_frozen(sc):
-      return 'missing-into-frozen'
+    if fake_fixed_tuple(sc):
+      return 'variable-tuple-becomes-fixed'
+    if default_invalid(sc):
+      return 'default-not-revalidated'
     for d in spec_atoms(sc, True, []):
       if any(cross_type_equal(d, x) for x in vat):
         return 'value-equal-to-frozen-default-but-of-other-type'
     return '%s<-%s' % (sc[0], sb[0])
 
   def classify_bc(self, sc, sb):
+    if fake_fixed_tuple(sc):
+      return 'variable-tuple-becomes-fixed'
+    if any(c[0] == 'enum' and b[0] not in ('enum', 'union') for c, b in aligned(sc, sb)):
+      return 'enum-over-non-enum-base'
     return '%s<-%s' % (sb[0], sc[0])
 
   def nontrivial(self, case, out):
